@@ -581,6 +581,9 @@ def run(res: common.Result, build) -> int:
             "KNOWN-FINDING: property=C13 validate_data_sorting compares deeper levels by '|'-joined text with "
             "nulls as '__NULL__': (g,None),(g,'__NULL__'),(g,None) is accepted, ('a|b','c'),('x','y'),('a','b|c') "
             f"is rejected ({res.known_hits[KNOWN_COLLISION]} generated inputs)")
+    from .. import crosscorr
+
+    crosscorr.run_cross(crosscorr.LIGHT["C13"], res)      # second tie: the whole-encoder correspondence class
     return common.finish(
         res, build, RULE, TRUSTED, ASSUME, known_lines=known_lines,
         explanation="C13_cells (with C13_blank_iff, C13_shown_otherwise, C13_page_first_rows_are_starts): the cell "
@@ -596,6 +599,15 @@ def run(res: common.Result, build) -> int:
 
 
 def replay(payload) -> int:
+    _cross = payload.get("case") or {}
+    if not _cross.get("cross"):
+        for _b in payload.get("broken") or []:
+            if (_b.get("case") or {}).get("cross"):
+                _cross = _b["case"]
+    if _cross.get("cross"):
+        from .. import crosscorr
+
+        return crosscorr.replay_cross(crosscorr.LIGHT["C13"], _cross)
     case = payload.get("case") or (payload.get("broken") or [{}])[-1].get("case") or {}
     tmp = common.Result("C13", "quick", 0)
     if case.get("level") == "unit":
